@@ -312,7 +312,7 @@ func runK8sShards(c *K8sShardsCase, rng *Rng) (string, map[string]interface{}) {
 // statuses (replicas, updated, ready) out of a small catalogue, three minutes apart (the manager's own
 // "not ready since" stamps are aged through the verif hook).  Whatever it saw before: while a rolling update
 // is in progress (updated != replicas) the StatefulSet is not coordinated, and a settled, ready one is.
-func k8sRollHistory(res *Result) {
+func k8sRollHistory(res *Result, add func(c interface{}, line string, obs map[string]interface{})) {
 	type st struct{ r, u, rd int32 }
 	cat := []st{{3, 3, 3}, {3, 3, 2}, {3, 1, 2}, {3, 1, 3}, {3, 2, 0}, {2, 2, 1}}
 	n := 0
@@ -327,24 +327,32 @@ func k8sRollHistory(res *Result) {
 					cli := fake.NewSimpleClientset(obj)
 					rm := kk.NewReplicasManager(cli, stsNS, "app=kvass", 8080, false, quietLog())
 					hist := ""
+					w := &ints{}
+					w.add(3, int64(len(seq)))
+					complete := true
 					for k, x := range seq {
 						if k > 0 {
 							rm.VerifAgeStamps(age)
 							cur, err := cli.AppsV1().StatefulSets(stsNS).Get(context.TODO(), stsName, metav1.GetOptions{})
 							if err != nil {
+								complete = false
 								break
 							}
 							cur.Status.Replicas, cur.Status.UpdatedReplicas, cur.Status.ReadyReplicas = x.r, x.u, x.rd
 							if _, err := cli.AppsV1().StatefulSets(stsNS).UpdateStatus(context.TODO(), cur, metav1.UpdateOptions{}); err != nil {
 								if _, err := cli.AppsV1().StatefulSets(stsNS).Update(context.TODO(), cur, metav1.UpdateOptions{}); err != nil {
+									complete = false
 									break
 								}
 							}
 						}
 						mgrs, err := rm.Replicas()
 						if err != nil {
+							complete = false
 							break
 						}
+						w.add(int64(k)*int64(age/time.Second), int64(x.r), int64(x.u), int64(x.rd))
+						w.bool(len(mgrs) > 0)
 						hist += fmt.Sprintf("(replicas=%d updated=%d ready=%d -> %d manager(s)) ", x.r, x.u, x.rd, len(mgrs))
 						n++
 						bad := ""
@@ -364,11 +372,13 @@ func k8sRollHistory(res *Result) {
 								Case: map[string]interface{}{"case": map[string]interface{}{"kind": "rollingHistory", "statuses": seq, "minutes_between_calls": age.Minutes()}}}, 2)
 						}
 					}
+					if complete {
+						add(map[string]interface{}{"kind": "rollingHistory", "statuses": fmt.Sprint(seq), "minutes_between_calls": age.Minutes()}, w.String(), map[string]interface{}{"history": hist})
+					}
 				}
 			}
 		}
 	}
-	res.Evaluations += n
 	res.Dist["roll_history_calls"] = n
 }
 
@@ -485,11 +495,11 @@ func runK8s(a Args) *Result {
 			add(c, l, o)
 		}
 	}
+	if a.replay == "" && a.wants("C18") {
+		k8sRollHistory(res, add)
+	}
 	res.Evaluations = len(lines)
 	res.Exhaustive = true
-	if a.replay == "" && a.wants("C18") {
-		k8sRollHistory(res)
-	}
 	answers, err := runDriver(a.driver, "k8s", lines)
 	if err != nil {
 		res.Mismatch = append(res.Mismatch, Violation{Property: "C18", Clause: "driver", Signature: "driver-failure", What: err.Error()})
